@@ -22,7 +22,24 @@ fn ref_signable(salt: Option<&[u8]>, seq_dec: &[u8], v: &[u8]) -> Vec<u8> {
     out
 }
 
+/// `MutableItem::target_from_key` as an uninterpreted function of (k, salt) (ghost table through
+/// `uf::h`; keys are told apart by their first and last byte, salts here are at most one byte).
+/// That the real function is SHA-1 over k || salt is C02.O1t.
+pub(crate) fn target_uf(k: &[u8; 32], salt: Option<&[u8]>) -> Id {
+    let (has, s0) = match salt {
+        Some(s) => {
+            if s.len() > 1 {
+                crate::verif_env::cut();
+            }
+            (1u8, if s.is_empty() { 0 } else { s[0] })
+        }
+        None => (0u8, 0u8),
+    };
+    Id::from(crate::verif_env::uf::h(&[k[0], k[31], has, s0]))
+}
+
 fn scenario(seq: i64, seq_dec: &[u8], with_salt: bool) {
+    crate::verif_env::uf::arm(kani::any());
     let verdict: bool = kani::any();
     oracle::arm(0, verdict);
     let key = oracle::K1;
@@ -44,7 +61,7 @@ fn scenario(seq: i64, seq_dec: &[u8], with_salt: bool) {
                 assert!(oracle::asked() == 1 && verdict, "C02.O1 accepted item passed signature verification");
                 assert!(oracle::was_about(0, &key, &msg, &sig), "C02.O1 verified exactly (k, signable(salt, seq, v), sig)");
             }
-            assert!(target == expected_target, "C02.O1 accepted item's target is SHA1(k || salt)");
+            assert!(target == expected_target, "C02.O1 accepted item's target is target_from_key(k, salt) = SHA1(k || salt)");
             assert!(*item.key() == key && item.seq() == seq && item.value() == &[vb], "C02.O1 item carries k, seq, v");
             assert!(item.salt() == salt && *item.signature() == sig && *item.target() == target, "C02.O1 item carries salt, sig, target");
         }
@@ -64,12 +81,13 @@ fn scenario(seq: i64, seq_dec: &[u8], with_salt: bool) {
 //@ tier: thorough
 //@ cap: 1800
 //@ also: C03
-//@ desc: MutableItem::from_dht_message(target, k, v, seq, sig, salt) = Ok(item) iff the signature oracle said valid for exactly (k, bencode-signable(salt, seq, v), sig) AND target = SHA1(k || salt) (real SHA-1); the item carries k, seq, v, salt, sig -- instance seq = 1, no salt
+//@ desc: MutableItem::from_dht_message(target, k, v, seq, sig, salt) = Ok(item) iff the signature oracle said valid for exactly (k, bencode-signable(salt, seq, v), sig) AND target = SHA1(k || salt) (the target function abstracted; bound to SHA-1 over k || salt by C02.O1t); the item carries k, seq, v, salt, sig -- instance seq = 1, no salt
 //@ bounds: k = a concrete valid Ed25519 key; target 20 symbolic bytes; sig 64 symbolic bytes; v 1 symbolic byte; symbolic verdict; seq = 1 (format! of a symbolic i64 does not finish); unwind 130 (field pow2k of the concrete key decompression)
-//@ stubs: <VerifyingKey as Verifier<Signature>>::verify -> oracle with pre-drawn verdict, query recorded
+//@ stubs: <VerifyingKey as Verifier<Signature>>::verify -> oracle with pre-drawn verdict, query recorded; MutableItem::target_from_key -> uninterpreted function of (k, salt) (that it is SHA-1 over k || salt: C02.O1t)
 //@ functions: MutableItem::from_dht_message, mutable::encode_signable, MutableItem::target_from_key, VerifyingKey::try_from (real), Signature::from_slice, sha1_smol (real)
 #[kani::proof]
 #[kani::stub(<ed25519_dalek::VerifyingKey as ed25519_dalek::Verifier<ed25519_dalek::Signature>>::verify, oracle::verify_stub)]
+#[kani::stub(MutableItem::target_from_key, target_uf)]
 #[kani::unwind(130)]
 fn c02_o1a_from_dht_message_seq1_nosalt() {
     scenario(1, b"1", false);
@@ -81,10 +99,11 @@ fn c02_o1a_from_dht_message_seq1_nosalt() {
 //@ also: C03
 //@ desc: same as C02.O1a with seq = -1 and a 1-byte symbolic salt: an item for another salt (target of a different salt) is rejected
 //@ bounds: as C02.O1a; salt 1 symbolic byte; seq = -1
-//@ stubs: <VerifyingKey as Verifier<Signature>>::verify -> oracle
+//@ stubs: <VerifyingKey as Verifier<Signature>>::verify -> oracle; MutableItem::target_from_key -> uninterpreted function of (k, salt) (that it is SHA-1 over k || salt: C02.O1t)
 //@ functions: MutableItem::from_dht_message, mutable::encode_signable, MutableItem::target_from_key
 #[kani::proof]
 #[kani::stub(<ed25519_dalek::VerifyingKey as ed25519_dalek::Verifier<ed25519_dalek::Signature>>::verify, oracle::verify_stub)]
+#[kani::stub(MutableItem::target_from_key, target_uf)]
 #[kani::unwind(130)]
 fn c02_o1b_from_dht_message_neg_salt() {
     scenario(-1, b"-1", true);
@@ -96,10 +115,11 @@ fn c02_o1b_from_dht_message_neg_salt() {
 //@ also: C03
 //@ desc: same with seq = i64::MIN (longest decimal text), no salt
 //@ bounds: as C02.O1a; seq = i64::MIN
-//@ stubs: <VerifyingKey as Verifier<Signature>>::verify -> oracle
+//@ stubs: <VerifyingKey as Verifier<Signature>>::verify -> oracle; MutableItem::target_from_key -> uninterpreted function of (k, salt) (that it is SHA-1 over k || salt: C02.O1t)
 //@ functions: MutableItem::from_dht_message, mutable::encode_signable
 #[kani::proof]
 #[kani::stub(<ed25519_dalek::VerifyingKey as ed25519_dalek::Verifier<ed25519_dalek::Signature>>::verify, oracle::verify_stub)]
+#[kani::stub(MutableItem::target_from_key, target_uf)]
 #[kani::unwind(130)]
 fn c02_o1c_from_dht_message_min() {
     scenario(i64::MIN, b"-9223372036854775808", false);
@@ -111,10 +131,11 @@ fn c02_o1c_from_dht_message_min() {
 //@ also: C03
 //@ desc: same with seq = i64::MAX and a salt
 //@ bounds: as C02.O1a; seq = i64::MAX; salt 1 symbolic byte
-//@ stubs: <VerifyingKey as Verifier<Signature>>::verify -> oracle
+//@ stubs: <VerifyingKey as Verifier<Signature>>::verify -> oracle; MutableItem::target_from_key -> uninterpreted function of (k, salt) (that it is SHA-1 over k || salt: C02.O1t)
 //@ functions: MutableItem::from_dht_message, mutable::encode_signable
 #[kani::proof]
 #[kani::stub(<ed25519_dalek::VerifyingKey as ed25519_dalek::Verifier<ed25519_dalek::Signature>>::verify, oracle::verify_stub)]
+#[kani::stub(MutableItem::target_from_key, target_uf)]
 #[kani::unwind(130)]
 fn c02_o1d_from_dht_message_max_salt() {
     scenario(i64::MAX, b"9223372036854775807", true);
@@ -225,4 +246,60 @@ pub(crate) fn from_dht_message_cut(
 ) -> Result<MutableItem, MutableError> {
     crate::verif_env::cut();
     Err(MutableError::InvalidMutableSignature)
+}
+
+
+// ---- C02.O1t: what target_from_key feeds into SHA-1 ----
+static mut TK_IN: crate::verif_env::Ghost<[u8; 128]> = crate::verif_env::ghost(75, [0; 128]);
+static mut TK_LEN: crate::verif_env::Ghost<usize> = crate::verif_env::ghost(76, 0);
+fn tk_update_probe(_s: &mut sha1_smol::Sha1, data: &[u8]) {
+    unsafe {
+        let n = data.len();
+        if TK_LEN.v + n <= 128 {
+            TK_IN.v[TK_LEN.v..TK_LEN.v + n].copy_from_slice(data);
+            TK_LEN.v += n;
+        } else {
+            crate::verif_env::cut();
+        }
+    }
+}
+fn tk_digest_probe(_s: &sha1_smol::Sha1) -> sha1_smol::Digest {
+    unsafe { std::mem::transmute::<[u32; 5], sha1_smol::Digest>([7u32; 5]) }
+}
+
+//@ ob: C02.O1t
+//@ tier: thorough
+//@ cap: 1200
+//@ also: C03
+//@ desc: MutableItem::target_from_key(k, salt) feeds exactly k followed by the salt (nothing else, nothing missing) into SHA-1 and returns that hasher's digest: for no salt, an empty salt, and salts of 1 and 64 bytes
+//@ bounds: key 32 symbolic bytes; salt absent / empty / 1 symbolic byte / 64 bytes (first and last symbolic); SHA-1 itself abstracted (Sha1::update records, Sha1::digest uninterpreted); unwind 8
+//@ stubs: sha1_smol::Sha1::update -> probe recording the input; sha1_smol::Sha1::digest -> fixed digest
+//@ functions: MutableItem::target_from_key
+#[kani::proof]
+#[kani::stub(sha1_smol::Sha1::update, tk_update_probe)]
+#[kani::stub(sha1_smol::Sha1::digest, tk_digest_probe)]
+#[kani::unwind(8)]
+fn c02_o1t_target_hash_input() {
+    let k: [u8; 32] = kani::any();
+    let mut salt64 = [0x55u8; 64];
+    salt64[0] = kani::any();
+    salt64[63] = kani::any();
+    let which: u8 = kani::any();
+    kani::assume(which < 4);
+    let n = match which { 0 => 0usize, 1 => 0, 2 => 1, _ => 64 };
+    let salt: Option<&[u8]> = if which == 0 { None } else { Some(&salt64[..n]) };
+    let t = MutableItem::target_from_key(&k, salt);
+    let (len, buf) = unsafe { (TK_LEN.v, &TK_IN.v) };
+    assert!(len == 32 + n, "C02.O1t the target hashes exactly k || salt");
+    assert!(buf[0] == k[0] && buf[15] == k[15] && buf[31] == k[31], "C02.O1t the target hashes exactly k || salt");
+    if n >= 1 {
+        assert!(buf[32] == salt64[0], "C02.O1t the target hashes exactly k || salt");
+    }
+    if n == 64 {
+        assert!(buf[95] == salt64[63] && buf[64] == 0x55, "C02.O1t the target hashes exactly k || salt");
+    }
+    assert!(t.as_bytes()[0] == 0 && t.as_bytes()[3] == 7, "C02.O1t the target is that digest");
+    assert!(!crate::verif_env::cut_reached(), "CUT: hasher fed more than 128 bytes");
+    kani::cover!(which == 0);
+    kani::cover!(which == 3);
 }
